@@ -259,6 +259,74 @@ static void sweep(cs::Ctx& ctx, uint64_t shard, uint64_t nshards) {
       }
     }
   }
+  // flat but long inputs: the stack must not grow with the length either
+  for (int L : {1, 10}) {
+    for (int form = 0; form < 10; form++) {
+      for (size_t n : {(size_t)3, (size_t)20000}) {
+        if (idx++ % nshards != shard) continue;
+        bool msgpack = form >= 8;
+        std::string in;
+        switch (form) {
+          case 0: in = std::string(n, ' ') + "[1]"; break;
+          case 1:
+            in = "[";
+            for (size_t i = 0; i < n; i++) in += (i ? ",1" : "1");
+            in += "]";
+            break;
+          case 2:
+            in = "{";
+            for (size_t i = 0; i < n; i++) in += std::string(i ? "," : "") + "\"k" + std::to_string(i) + "\":null";
+            in += "}";
+            break;
+          case 3: in = "[\"" + std::string(n, 'x') + "\"]"; break;
+          case 4: in = "[" + std::string(n, '\n') + "1" + std::string(n, '\t') + "]"; break;
+#if ARDUINOJSON_ENABLE_COMMENTS
+          case 5:
+            for (size_t i = 0; i < n; i++) in += "/*c*/";
+            in += "[1]";
+            break;
+          case 6:
+            in = "[";
+            for (size_t i = 0; i < n; i++) in += "//c\n";
+            in += "1";
+            for (size_t i = 0; i < n; i++) in += "/**/ ";
+            in += "]";
+            break;
+          case 7:
+            in = "{";
+            for (size_t i = 0; i < n; i++) in += "/*a*/ //b\n";
+            in += "\"k\"";
+            for (size_t i = 0; i < n; i++) in += "/*a*/";
+            in += ":";
+            for (size_t i = 0; i < n; i++) in += "//b\n";
+            in += "1}";
+            break;
+#else
+          case 5:
+          case 6:
+          case 7: continue;
+#endif
+          case 8:
+            in = std::string("\xDC", 1) + (char)(n >> 8) + (char)(n & 255) + std::string(n, '\xC0');
+            break;
+          default:
+            in = std::string("\xDE", 1) + (char)(n >> 8) + (char)(n & 255);
+            for (size_t i = 0; i < n; i++) in += std::string("\xA1k\x01", 3);
+        }
+        ctx.evaluations++;
+        ctx.counted_nontrivial++;
+        ctx.current_rendering = "flat form " + std::to_string(form) + " x" + std::to_string(n) + " L=" + std::to_string(L);
+        for (const char* filter : {(const char*)nullptr, "false"}) {
+          Exec e = execute(ctx, msgpack, in, L, filter);
+          if (e.code != DeserializationError::Ok) ctx.fail("wellformed-rejected", ctx.current_rendering + ": code " + std::to_string(e.code));
+          size_t base = baseline(ctx, msgpack, L, filter != nullptr);
+          if (e.stack > base + 512)
+            ctx.fail("stack-not-bounded-by-limit", ctx.current_rendering + ": used " + std::to_string(e.stack) + " bytes of stack, canonical depth-L chains use " + std::to_string(base));
+        }
+        ctx.label("flat-long-input");
+      }
+    }
+  }
   ctx.current_rendering.clear();
 }
 
